@@ -204,7 +204,25 @@ pub fn generate(seed: u64, property: &str, thorough: bool) -> Trace {
     }
     // the fault (C13) — C18 runs are fault-free
     let rounds = if thorough { 2 + rw.usize(3) } else { 1 + rw.usize(2) };
+    let mut pulled = false;
     for _ in 0..rounds {
+        // a round aimed at the synchronised batches: the fault lands inside the pull, a fault-free request follows
+        if !c18 && !pulled && rf.chance(1, 4) {
+            pulled = true;
+            let site = *rf.pick(&["stmt_sync_node", "stmt_edge", "stmt_edge", "stmt_sync_del_node", "before_commit", "after_msg", "stmt_marks"]);
+            let kind = if site == "after_msg" || rf.chance(1, 3) { "crash" } else { "error_once" };
+            steps.push(Step::Arm { site: site.to_string(), hit: 1 + rf.below(3), kind: kind.to_string() });
+            let m = marker;
+            marker += 3;
+            steps.push(Step::One { op: Op { kind: OpKind::Pull, marker: m }, dt: 1000 });
+            steps.push(Step::One { op: gen_op(&mut rw, &mut marker, &mut multis, &mut used), dt: gen_dt(&mut rw) });
+            steps.push(Step::Probe { marker: m + 1 });
+            steps.push(Step::One { op: Op { kind: OpKind::Pull, marker: m + 2 }, dt: 1000 });
+            let m2 = marker;
+            marker += 1;
+            steps.push(Step::Probe { marker: m2 });
+            continue;
+        }
         if !c18 && rf.chance(5, 6) {
             let crash = rf.chance(1, 2);
             let site = if crash && rf.chance(1, 3) {
